@@ -30,29 +30,75 @@ class Entry:
         return e
 
 
+KNOWN_MAPS = ('ask', 'bid')
+KNOWN_ITEMS = ('contract_info', 'version_info')
+
+
+class _NsMaps(dict):
+    """namespace -> entries.  A namespace the state invariant does not describe (an auxiliary index a change introduced) is
+    empty in a world grown from the empty store (`closed`) and unknown in an arbitrary pre-state (reported, never guessed)."""
+
+    def __init__(self, world, *a):
+        dict.__init__(self, *a)
+        self.world = world
+
+    def __missing__(self, ns):
+        if not self.world.closed:
+            raise Unsupported('storage namespace %r is not described by the state invariant (unknown content in an arbitrary pre-state)' % (ns,))
+        self[ns] = []
+        return self[ns]
+
+
+class _NsRest(dict):
+    def __missing__(self, ns):
+        return z3.BoolVal(False)
+
+
+class _NsItems(dict):
+    def __init__(self, world, *a):
+        dict.__init__(self, *a)
+        self.world = world
+
+    def _chk(self, ns):
+        if ns not in KNOWN_ITEMS and not dict.__contains__(self, ns) and not self.world.closed:
+            raise Unsupported('storage item %r is not described by the state invariant (unknown content in an arbitrary pre-state)' % (ns,))
+
+    def get(self, ns, default=None):
+        self._chk(ns)
+        return dict.get(self, ns, default)
+
+    def __missing__(self, ns):
+        self._chk(ns)
+        raise KeyError(ns)
+
+
 class World:
     """symbolic contract storage + chain environment"""
 
     def __init__(self):
-        self.items = {}            # namespace string -> Adt or None
-        self.maps = {'ask': [], 'bid': []}
-        self.rest_nonempty = {'ask': z3.BoolVal(False), 'bid': z3.BoolVal(False)}
+        self.closed = False        # True: grown from the empty store, every namespace not written yet is empty
+        self.items = _NsItems(self)            # namespace string -> Adt or None
+        self.maps = _NsMaps(self, {'ask': [], 'bid': []})
+        self.rest_nonempty = _NsRest({'ask': z3.BoolVal(False), 'bid': z3.BoolVal(False)})
         self.log = []              # (op, ns, key, val)
         self.attr_names = {}       # not used symbolically; account attribute lists are per scenario
         self.attrs = None          # list of Str terms: attribute names of the queried account, or None => query error symbolic
         self.readonly = False
         self.ties = []             # (n, d, r) of roundings taken with the half-unit-tie tolerance (28-digit quotient)
+        self.floor_ties = []       # (n, d, r) of truncations / ceilings of such quotients (tolerance at exact integers)
 
     def clone_into(self, memo):
         w = World()
         memo[id(self)] = w
-        w.items = {k: clone(v, memo) for k, v in self.items.items()}
-        w.maps = {k: [clone(e, memo) for e in v] for k, v in self.maps.items()}
-        w.rest_nonempty = dict(self.rest_nonempty)
+        w.closed = self.closed
+        w.items = _NsItems(w, {k: clone(v, memo) for k, v in self.items.items()})
+        w.maps = _NsMaps(w, {k: [clone(e, memo) for e in v] for k, v in self.maps.items()})
+        w.rest_nonempty = _NsRest(self.rest_nonempty)
         w.log = list(self.log)
         w.attrs = self.attrs
         w.readonly = self.readonly
         w.ties = list(self.ties)
+        w.floor_ties = list(self.floor_ties)
         return w
 
 
@@ -714,6 +760,10 @@ def m_dec_to_u128(ex, st, a, c, m):
     n, d = x.fields[0], x.fields[1]
     if z3.is_int_value(d) and d.as_long() == 1:
         return [(n >= 0, some(n)), (n < 0, NONE())]
+    if x.fields[2]:
+        # the value went through rust_decimal's 28-digit quotient: truncation with the exact-integer tolerance
+        outs = m_dec_round(ex, st, [a[0], z3.IntVal(0), Adt('RoundingStrategy', 'ToZero', [])], c, m)
+        return [(cnd, some(v.fields[0]) if isinstance(v, Adt) and v.ty == 'Decimal' else (NONE() if isinstance(v, Opaque) and v.tag == 'OOB' else v)) for cnd, v in outs]
     if z3.is_int_value(d):
         return [(n >= 0, some(n / d)), (n < 0, NONE())]
     q, r = ex.euclid(st, n, d)
@@ -750,8 +800,12 @@ def round_constraint(strategy, n, d, r, tolerant):
         return z3.Or(z3.And(2 * d * r <= h, h < 2 * d * (r + 1), z3.Not(z3.And(h == 2 * d * r, r % 2 == 1))),
                      z3.And(h == 2 * d * (r + 1), (r + 1) % 2 == 1))
     if strategy in ('ToZero', 'RoundDown', 'ToNegativeInfinity'):
+        if tolerant:
+            return z3.And(d * r <= n, n <= d * (r + 1), r >= 0)     # a 28-digit quotient just below an exact integer truncates to its lower neighbour
         return z3.And(d * r <= n, n < d * (r + 1))
     if strategy in ('AwayFromZero', 'RoundUp', 'ToPositiveInfinity'):
+        if tolerant:
+            return z3.And(d * (r - 1) <= n, n <= d * r)
         return z3.And(d * (r - 1) < n, n <= d * r)
     raise Unsupported('rounding strategy ' + strategy)
 
@@ -790,7 +844,10 @@ def m_dec_round(ex, st, a, c, m):
     r = hit[2]
     cons = round_constraint(strat.variant, n, d, r, bool(inexact))
     if inexact and st.world is not None:
-        st.world.ties.append((n, d, r, x.fields[4] if len(x.fields) > 4 else None))
+        if strat.variant in ('ToZero', 'RoundDown', 'ToNegativeInfinity', 'AwayFromZero', 'RoundUp', 'ToPositiveInfinity'):
+            st.world.floor_ties.append((n, d, r, x.fields[4] if len(x.fields) > 4 else None))
+        else:
+            st.world.ties.append((n, d, r, x.fields[4] if len(x.fields) > 4 else None))
     if not any(z3.eq(cons, p) for p in st.pc):
         st.pc.append(cons)
         st.pc.append(z3.And(r >= 0, r <= n + 1))       # linear range fact for the pruning tier (n >= 0, d >= 1)
@@ -1998,7 +2055,31 @@ def _iter_alts(ex, st, it):
             out += [(c, got) for c, got, _ in alts]
         return out
     if it.ty == 'FilterIter':
-        raise Unsupported('filter(..) consumed by something other than count()')
+        src, clo, clo_text = it.fields
+        out = []
+        for c0, items in _iter_alts(ex, st, src):
+            alts = [(c0, [])]
+            for x in items:
+                r = ex.call_closure(st, clo_text, clo, [Ref(Cell(x), [])])
+                nxt = []
+                for c1, got in alts:
+                    for c2, hit in r:
+                        if isinstance(hit, Opaque):
+                            raise Unsupported('panicking closure inside filter')
+                        cc = c1 if c2 is True else (c2 if c1 is True else z3.And(c1, c2))
+                        hs = z3.simplify(hit)
+                        if z3.is_true(hs):
+                            nxt.append((cc, got + [x]))
+                        elif z3.is_false(hs):
+                            nxt.append((cc, got))
+                        else:
+                            nxt.append((hs if cc is True else z3.And(cc, hs), got + [x]))
+                            nxt.append((z3.Not(hs) if cc is True else z3.And(cc, z3.Not(hs)), got))
+                if len(nxt) > ITER_ALT_CAP:
+                    raise Unsupported('too many closure outcomes inside an iterator adapter')
+                alts = nxt
+            out += alts
+        return out
     raise Unsupported('iterator ' + it.ty)
 
 
@@ -2178,5 +2259,183 @@ def m_dec_new(ex, st, a, c, m):
 RAW_MODELS[:0] = [
     (r'^rust_decimal::Decimal::scale$', m_dec_scale), (r'^rust_decimal::Decimal::mantissa$', m_dec_mantissa),
     (r'^rust_decimal::Decimal::rescale$', m_dec_rescale), (r'^rust_decimal::Decimal::new$', m_dec_new),
+]
+MODELS = [(re.compile(p), f) for p, f in RAW_MODELS]
+
+
+# ------------------------------------------------------------------ Default of library types (derived Default of crate types runs its real body)
+def m_default(ex, st, a, c, m):
+    t = m.group(1)
+    if t == 'Uint128':
+        return [(True, U(z3.IntVal(0)))]
+    if t in ('String', 'std::string::String'):
+        return [(True, EMPTY)]
+    if t == 'bool':
+        return [(True, z3.BoolVal(False))]
+    if re.match(r'^[ui](8|16|32|64|128|size)$', t):
+        return [(True, z3.IntVal(0))]
+    if t.startswith('Option') or t.startswith('std::option::Option'):
+        return [(True, NONE())]
+    if t.startswith('Vec') or t.startswith('std::vec::Vec'):
+        return [(True, [])]
+    if t in ('Decimal', 'rust_decimal::Decimal'):
+        return [(True, Dec(z3.IntVal(0), z3.IntVal(1)))]
+    raise Unsupported('Default of ' + t)
+
+
+RAW_MODELS[:0] = [(r'^<(Uint128|String|std::string::String|bool|[ui](?:8|16|32|64|128|size)|(?:std::option::)?Option<.*>|(?:std::vec::)?Vec<.*>|(?:rust_decimal::)?Decimal) as (?:std::default::)?Default>::default$', m_default)]
+MODELS = [(re.compile(p), f) for p, f in RAW_MODELS]
+
+
+# ------------------------------------------------------------------ round-5 batch: BTreeMap, iter_mut, or_else
+def _key_term(ex, k):
+    k = ex.deref(k)
+    if isinstance(k, Adt) and k.ty in ('Addr', 'Uint128'):
+        return k.fields[0]
+    if isinstance(k, z3.ExprRef):
+        return k
+    raise Unsupported('ordered-map key %r' % (k,))
+
+
+def _key_lt(a_, b_):
+    return f_key_rank(a_) < f_key_rank(b_) if a_.sort() == StrS else a_ < b_
+
+
+def m_btree_new(ex, st, a, c, m):
+    return [(True, Adt('BTreeMap', None, [[]]))]          # entries [key, value, present]: key coincidences stay symbolic (no fork on insert)
+
+
+def _scalar(v):
+    return isinstance(v, z3.ExprRef) or (isinstance(v, Adt) and v.ty == 'Uint128')
+
+
+def _ite_val(cnd, x, y):
+    if isinstance(x, Adt) and x.ty == 'Uint128':
+        return U(z3.If(cnd, x.fields[0], y.fields[0]))
+    return z3.If(cnd, x, y)
+
+
+def m_btree_insert(ex, st, a, c, m):
+    ents = ex.deref(a[0]).fields[0]
+    key, val = a[1], a[2]
+    kt = _key_term(ex, key)
+    hits = []
+    for e in ents:
+        cnd = z3.simplify(z3.And(e[2], kt == _key_term(ex, e[0])))
+        if z3.is_false(cnd):
+            continue
+        if z3.is_true(cnd):
+            old = e[1]
+            e[1] = val
+            return [(True, some(old))]
+        if not (_scalar(val) and _scalar(e[1])):
+            raise Unsupported('ordered map with structured values and possibly coinciding symbolic keys')
+        hits.append((cnd, e))
+    olds = [(cnd, e[1]) for cnd, e in hits]
+    for cnd, e in hits:
+        e[1] = _ite_val(cnd, val, e[1])
+    anyhit = z3.simplify(z3.Or(*[cnd for cnd, _ in hits])) if hits else z3.BoolVal(False)
+    ents.append([key, val, z3.simplify(z3.Not(anyhit))])
+    if len(ents) > 4:
+        raise Unsupported('ordered map with more than 4 entries')
+    return [(cnd, some(o)) for cnd, o in olds] + [(z3.Not(anyhit), NONE())]
+
+
+def _btree_sorted(ex, ents, build):
+    import itertools as _it
+    if len(ents) > 4:
+        raise Unsupported('ordered map with more than 4 entries')
+    outs = []
+    n = len(ents)
+    for mask in range(1 << n):
+        live = [i for i in range(n) if mask >> i & 1]
+        pres = [ents[i][2] if i in live else z3.Not(ents[i][2]) for i in range(n)]
+        pc_ = z3.simplify(z3.And(*pres)) if pres else z3.BoolVal(True)
+        if z3.is_false(pc_):
+            continue
+        keys = {i: _key_term(ex, ents[i][0]) for i in live}
+        for perm in _it.permutations(live):
+            conds = [_key_lt(keys[perm[i]], keys[perm[i + 1]]) for i in range(len(perm) - 1)]
+            cnd = z3.simplify(z3.And(pc_, *conds))
+            if z3.is_false(cnd):
+                continue
+            outs.append((True if z3.is_true(cnd) else cnd, Adt('Iter', None, [[build(ents[j][0], ents[j][1]) for j in perm], 0])))
+    return outs
+
+
+def m_btree_into_iter(ex, st, a, c, m):
+    return _btree_sorted(ex, ex.deref(a[0]).fields[0], lambda k, v: Adt('tuple', None, [k, v]))
+
+
+def m_btree_keys(ex, st, a, c, m):
+    return _btree_sorted(ex, ex.deref(a[0]).fields[0], lambda k, v: k)
+
+
+def m_btree_values(ex, st, a, c, m):
+    return _btree_sorted(ex, ex.deref(a[0]).fields[0], lambda k, v: v)
+
+
+def m_btree_len(ex, st, a, c, m):
+    return [(True, z3.simplify(z3.Sum(*[z3.If(e[2], 1, 0) for e in ex.deref(a[0]).fields[0]])) if ex.deref(a[0]).fields[0] else z3.IntVal(0))]
+
+
+def m_btree_is_empty(ex, st, a, c, m):
+    return [(True, z3.simplify(z3.Not(z3.Or(*[e[2] for e in ex.deref(a[0]).fields[0]]))) if ex.deref(a[0]).fields[0] else z3.BoolVal(True))]
+
+
+def m_btree_get(ex, st, a, c, m):
+    ents = ex.deref(a[0]).fields[0]
+    kt = _key_term(ex, a[1])
+    outs, neg = [], []
+    for e in ents:
+        cnd = z3.And(e[2], kt == _key_term(ex, e[0]))
+        outs.append((z3.And(*(neg + [cnd])), some(e[1])))
+        neg.append(z3.Not(cnd))
+    outs.append((z3.And(*neg) if neg else True, NONE()))
+    return outs
+
+
+def m_btree_contains(ex, st, a, c, m):
+    ents = ex.deref(a[0]).fields[0]
+    kt = _key_term(ex, a[1])
+    return [(True, z3.simplify(z3.Or(*[z3.And(e[2], kt == _key_term(ex, e[0])) for e in ents])) if ents else z3.BoolVal(False))]
+
+
+def m_result_or_else(ex, st, a, c, m):
+    r = a[0]
+    if r.variant in ('Ok', 'Some'):
+        return [(True, r)]
+    return _apply_fn(ex, st, a[1], c, [r.fields[0]] if r.variant == 'Err' else [])
+
+
+def m_result_or(ex, st, a, c, m):
+    r = a[0]
+    return [(True, r if r.variant == 'Ok' else a[1])]
+
+
+def m_deref_mut(ex, st, a, c, m):
+    return [(True, a[0] if isinstance(a[0], Ref) else ex.deref(a[0]))]     # &mut Vec<T> -> &mut [T]: the same place
+
+
+def m_slice_iter_mut(ex, st, a, c, m):
+    r = a[0]
+    while isinstance(r, Ref) and isinstance(ex.read(r.cell, r.path), Ref):
+        r = ex.read(r.cell, r.path)
+    if isinstance(r, Ref) and isinstance(ex.read(r.cell, r.path), list):
+        n = len(ex.read(r.cell, r.path))
+        return [(True, Adt('Iter', None, [[Ref(r.cell, list(r.path) + [('idx', i)]) for i in range(n)], 0]))]
+    return [(True, Adt('Iter', None, [list(ex.deref(a[0])), 0]))]
+
+
+RAW_MODELS[:0] = [
+    (r'^(?:std::collections::)?BTreeMap::new$|^<(?:std::collections::)?BTreeMap<.*> as Default>::default$', m_btree_new),
+    (r'^(?:std::collections::)?BTreeMap::insert$', m_btree_insert),
+    (r'^<&?(?:mut )?(?:std::collections::)?BTreeMap<.*> as IntoIterator>::into_iter$|^(?:std::collections::)?BTreeMap::(iter|into_iter|iter_mut)$', m_btree_into_iter),
+    (r'^(?:std::collections::)?BTreeMap::(keys|into_keys)$', m_btree_keys), (r'^(?:std::collections::)?BTreeMap::(values|into_values)$', m_btree_values),
+    (r'^(?:std::collections::)?BTreeMap::len$', m_btree_len), (r'^(?:std::collections::)?BTreeMap::is_empty$', m_btree_is_empty),
+    (r'^(?:std::collections::)?BTreeMap::get$', m_btree_get), (r'^(?:std::collections::)?BTreeMap::contains_key$', m_btree_contains),
+    (r'^Result::or_else$|^std::option::Option::or_else$', m_result_or_else), (r'^Result::or$', m_result_or),
+    (r'^core::slice::<impl \[.*\]>::iter_mut$', m_slice_iter_mut),
+    (r'^<.* as DerefMut>::deref_mut$', m_deref_mut),
 ]
 MODELS = [(re.compile(p), f) for p, f in RAW_MODELS]
